@@ -1,7 +1,11 @@
 (* C07 - Coverage, average coverage, distance and divergence equal their definitions.
-   Only statements, each closed by [exact], with its assumptions printed. *)
+   Only statements, each closed by [exact], with its assumptions printed.
+   M = Model/C07.v (the folds of codebasin/report.py over exact rationals, NaN = None),
+   S = Spec/C07.v (the definitions on explicit line sets).  [oeq] = both NaN or equal
+   rationals; [wf] = counts are non-negative; [selected] = what the optional
+   `platforms` argument denotes (absent/empty = the platforms of the table). *)
 From Coq Require Import ZArith QArith String Bool Permutation List.
-From CBI Require Import Lib.Data Model.C07 Spec.C07 Proofs.C07.
+From CBI Require Import Lib.Data Model.C07 Spec.C07 Proofs.C07 Proofs.C07s.
 Import ListNotations.
 Local Open Scope string_scope.
 
@@ -9,3 +13,8 @@ Local Open Scope string_scope.
 Theorem C07_symmetric : forall t p q, distance t p q = distance t q p.
 Proof. exact distance_sym. Qed.
 Print Assumptions C07_symmetric.
+
+(* distance = Jaccard distance of the two line sets *)
+Theorem C07_distance_jaccard : forall t p q, wf t -> oeq (distance t p q) (S_distance t p q).
+Proof. exact distance_S. Qed.
+Print Assumptions C07_distance_jaccard.
